@@ -329,6 +329,16 @@ class CFG:
         return out
 
 
+def calls_may_raise(n: ast.AST) -> bool:
+    """may_raise predicate: any call, raise or assert may raise."""
+    if isinstance(n, (ast.Raise, ast.Assert)):
+        return True
+    for x in ast.walk(n):
+        if isinstance(x, (ast.Call, ast.Raise, ast.Assert, ast.Subscript, ast.Await)):
+            return True
+    return False
+
+
 def assigned_names(target: ast.AST) -> list[str]:
     """Dotted names bound by an assignment target (x, self.item, tuple elements)."""
     from .srcmodel import dotted
